@@ -413,6 +413,23 @@ def lib_np_random_uniform(eng, st, args, kw, node):
 LIB[("numpy.random", "uniform")] = lib_np_random_uniform
 
 
+def lib_np_random_random(eng, st, args, kw, node):
+    """np.random.random() in [0, 1)"""
+    if args or kw:
+        raise Unsupported("np.random.random with a size")
+    st.ghost["rng_used"] = True
+    r = eng.ctx.fresh("rnd", ("float",))
+    if eng.ctx.float_mode == "fp":
+        st.assume(z3.And(z3.fpLEQ(z3.FPVal(0.0, z3.Float64()), r.z), z3.fpLT(r.z, z3.FPVal(1.0, z3.Float64()))))
+    else:
+        st.assume(z3.And(r.z >= 0, r.z < 1))
+    eng.ctx.tags.add("AX_numpy_uniform_within_bounds")
+    return r
+
+
+LIB[("numpy.random", "random")] = lib_np_random_random
+
+
 def lib_np_random_choice(eng, st, args, kw, node):
     """np.random.choice(range(0, n)): an element of the range"""
     a = args[0]
